@@ -174,7 +174,28 @@ fn foreign_op(rng: &mut Rng, nmax: usize) -> Op {
         k: pick_k(rng, 3),
         seed: rng.next(),
         place: pick_place(rng),
+        same_type: false,
     }
+}
+
+/// history fault `grow.then.shrink`: one large allocating call first (own or other float type), so that whatever a thread
+/// or a process keeps between calls (pools, caches, high-water marks) is sized by it when the small calls follow
+fn big_first_op(rng: &mut Rng) -> Op {
+    Op::Foreign {
+        pk: *rng.pick(&[PK::Auto, PK::Auto, PK::Scalar, PK::Avx, PK::Sse]),
+        len: *rng.pick(&[1usize << 15, 1 << 16, 1 << 17, 40000, 3 << 15, 100_000]),
+        dir: pick_dir(rng),
+        entry: *rng.pick(&[Entry::Process, Entry::Process, Entry::Process, Entry::InPlace]),
+        k: 1,
+        seed: rng.next(),
+        place: pick_place(rng),
+        same_type: rng.chance(0.6),
+    }
+}
+
+/// size fault `big.batch`: a call whose total size (not its transform length) is large
+fn big_batch_op(rng: &mut Rng, inst: InstRef, entries: &[Entry]) -> Op {
+    Op::BigBatch { inst, entry: *rng.pick(entries), target_elems: *rng.pick(&[1u32 << 20, 1 << 21, 3 << 19, 1_200_000]), seed: rng.next(), place: pick_place(rng) }
 }
 
 fn pick_fault(rng: &mut Rng) -> ShapeFault {
@@ -223,7 +244,16 @@ fn gen_c11(rng: &mut Rng, tier: Tier) -> Case {
             if r < 6 && elem != ElemKind::Fx {
                 ops.push(foreign_op(rng, nmax));
             } else if r < 82 {
-                ops.push(good_call(rng, inst, &ENTRIES, 4, &inputs));
+                let mut op = good_call(rng, inst, &ENTRIES, 4, &inputs);
+                // "bit-for-bit what a single isolated call returns": whatever the workspace holds (the isolated call gets zeros)
+                if rng.chance(0.3) {
+                    if let Op::Call { scratch_fill, out_fill, scratch_extra, .. } = &mut op {
+                        *scratch_fill = *rng.pick(&FILLS);
+                        *out_fill = *rng.pick(&FILLS);
+                        *scratch_extra = *rng.pick(&[0u32, 0, 1, 17]);
+                    }
+                }
+                ops.push(op);
             } else if r < 90 {
                 ops.push(Op::BadCall { inst, entry: *rng.pick(&ENTRIES), fault: pick_fault(rng), place: pick_place(rng), seed: rng.next() });
             } else if r < 94 {
@@ -235,6 +265,17 @@ fn gen_c11(rng: &mut Rng, tier: Tier) -> Case {
             }
         }
         case.threads.push(ops);
+    }
+    if elem != ElemKind::Fx {
+        if rng.chance(0.03) {
+            let op = big_first_op(rng);
+            case.threads[0].insert(0, op);
+        }
+        if rng.chance(0.02) {
+            let op = big_batch_op(rng, InstRef::Shared(hot), &ENTRIES);
+            let t = rng.below(nthreads as u64) as usize;
+            case.threads[t].push(op);
+        }
     }
     case
 }
@@ -304,6 +345,10 @@ fn gen_c08(rng: &mut Rng, tier: Tier) -> Case {
         if let Some((f, d)) = &fam {
             let len = if i < 2 && f.len() >= 2 && rng.chance(0.7) { f[i] } else { *rng.pick(f) };
             case.insts.push(InstDef { spec: Spec::Planned(pk0, len), dir: *d, from_planner: Some(0) });
+        } else if rng.chance(0.15) {
+            // small two-level constructor nests (the alphabet the C12 check enumerates): scratch-length coincidences
+            let nests = crate::pools::systematic_nests();
+            case.insts.push(InstDef { spec: nests[rng.below(nests.len() as u64) as usize].clone(), dir, from_planner: None });
         } else if rng.chance(0.35) {
             case.insts.push(InstDef { spec: Spec::Planned(pk0, pools(nmax).pick_chain(rng)), dir, from_planner: Some(0) });
         } else {
@@ -400,6 +445,11 @@ fn gen_c15(rng: &mut Rng, tier: Tier) -> Case {
             let pos = rng.below(case.threads[t].len() as u64 + 1) as usize;
             case.threads[t].insert(pos, op);
         }
+    }
+    if elem != ElemKind::Fx && rng.chance(0.03) {
+        let which = InstRef::Shared(rng.below(ninst as u64) as u16);
+        let op = big_batch_op(rng, which, &[Entry::Immut]);
+        case.threads[0].push(op);
     }
     case
 }
@@ -545,6 +595,41 @@ fn gen_c10(rng: &mut Rng, tier: Tier, index: u64) -> Case {
     let elem = pick_elem(rng, 4);
     let mut case = base_case("C10", elem, rng);
     case.twin = true;
+    if rng.chance(if tier.thorough { 0.03 } else { 0.015 }) {
+        // marathon history: several hundred distinct requests to one planner (whatever a planner does once its caches are
+        // large - bounding, evicting, rehashing - only shows after a long history), then reference-checked calls on
+        // earlier and on new transforms; the twin planner replays all of it
+        let pk = *rng.pick(pks_for(elem));
+        case.planners.push(pk);
+        case.policy = Policy::Seq;
+        let top = 300 + rng.below(500) as usize;
+        let mut lens: Vec<usize> = (2..=top).collect();
+        match rng.below(3) {
+            0 => lens.reverse(),
+            1 => rng.shuffle(&mut lens),
+            _ => {}
+        }
+        let both = rng.chance(0.5);
+        let dir = pick_dir(rng);
+        let mut ops = Vec::new();
+        let mut slot = 0u16;
+        for (i, len) in lens.iter().enumerate() {
+            ops.push(Op::Plan { planner: 0, len: *len, dir: if both && i % 2 == 1 { dir.opp() } else { dir }, via: false, slot });
+            slot += 1;
+        }
+        for _ in 0..6 {
+            let s = rng.below(slot as u64) as u16;
+            ops.push(checked_call(rng, s, 3));
+        }
+        for _ in 0..6 {
+            let len = 2 + rng.below(2 * top as u64) as usize;
+            ops.push(Op::Plan { planner: 0, len, dir: pick_dir(rng), via: false, slot });
+            ops.push(checked_call(rng, slot, 3));
+            slot += 1;
+        }
+        case.threads.push(ops);
+        return case;
+    }
     let nmax = pick_nmax(rng, tier, 1 << 13, 1 << 16);
     let npl = 1 + rng.below(3) as usize;
     for _ in 0..npl {
@@ -794,6 +879,17 @@ fn gen_c03(rng: &mut Rng, tier: Tier, miri: bool, fixed: Option<(ElemKind, Vec<S
                 case.threads[0].push(Op::Call { inst, entry: ENTRIES[(e0 + j * (1 + rng.below(3) as usize)) % 4], k: pick_k(rng, 3), input: InputSpec { seed: rng.next(), kind: InputKind::Dense }, scratch_extra: 0, scratch_fill: Fill::Zero, out_fill: Fill::Zero, place: pick_place(rng), dft_ref: false });
             }
             case.threads[0].push(Op::BadCall { inst, entry: *rng.pick(&ENTRIES), fault: pick_fault(rng), place: pick_place(rng), seed: rng.next() });
+        }
+    }
+    if !miri && fixed.is_none() && elem != ElemKind::Fx {
+        if rng.chance(0.04) {
+            let op = big_first_op(rng);
+            case.threads[0].insert(0, op);
+        }
+        if rng.chance(0.02) {
+            let which = InstRef::Shared(rng.below(ninst as u64) as u16);
+            let op = big_batch_op(rng, which, &ENTRIES);
+            case.threads[0].push(op);
         }
     }
     for t in 0..nthreads {
